@@ -16,10 +16,13 @@
 (*                   are trigger time + every (truncated with align)        *)
 (* Nothing is flushed when the task stops (windowByTime.Done is empty).      *)
 (*                                                                          *)
-(* Left open on purpose (documentation vs. code): FillPeriod is documented  *)
-(* as "only applies if the period is greater than the every value"; the     *)
-(* code applies it always.  For fill /\ 0 < every /\ period <= every both   *)
-(* first due times are accepted (FirstDue is a set).                        *)
+(* fillPeriod: the property says, without qualification, "first one delayed *)
+(* to a full period with fillPeriod", and the code delays for every         *)
+(* period/every combination; the sentence in pipeline/window.go ("only      *)
+(* applies if the period is greater than the every value") is NOT taken as  *)
+(* a licence to emit a partial first window.  FirstDue is therefore the     *)
+(* single value newWindowByTime computes (kept as a set so that a reading   *)
+(* the text really leaves open could be added as a second element).         *)
 EXTENDS Integers, Sequences, FiniteSets, TLC
 
 CONSTANTS
@@ -56,9 +59,7 @@ FirstDueCode(c, t0) ==
          THEN Trunc(c, t0 + c.period) + c.every   \* smallest multiple of every > t0+period
          ELSE t0 + c.period
     ELSE Trunc(c, t0 + c.every)
-FirstDue(c, t0) ==
-    {FirstDueCode(c, t0)} \cup
-    (IF c.fill /\ c.every > 0 /\ c.period <= c.every THEN {Trunc(c, t0 + c.every)} ELSE {})
+FirstDue(c, t0) == {FirstDueCode(c, t0)}
 
 (* What the first due time means (documentation of fillPeriod/align and the *)
 (* comment in newWindowByTime: "aligned with Every and greater than         *)
